@@ -222,6 +222,23 @@ def run(chk):
                 return "identical marked formulas"
             chk.run("C06.R3", f"jinns.parameters._derivative_keys:{DK[eq_type]}.from_str", cfg, go, construct="from_str == tree")
 
+        # R3 without equation parameters (a forward problem): "eq_params" selects nothing, the others the network
+        def go_noeq(eq_type=eq_type, terms=terms, dkcls=dkcls):
+            from ..alg import NNLabel
+            p0 = E.Params.make(nn_params=NNLabel('u'), eq_params={})
+            for s_, want in (("nn_params", True), ("eq_params", False), ("both", True)):
+                dk = dkcls.from_str(params=p0, **{t: s_ for t in terms})
+                for t in terms:
+                    m = dk.fields[t]
+                    got = m.fields['nn_params']
+                    if got is not want and got != want:
+                        raise Violation(t, f"from_str({t}={s_!r}) without equation parameters selects nn_params={got}", f"nn_params={want}")
+                    if m.fields['eq_params']:
+                        raise Violation(t, f"eq_params mask {m.fields['eq_params']}", "an empty mask")
+            return "strings select the network / nothing / the network"
+        chk.run("C06.R3", f"jinns.parameters._derivative_keys:{DK[eq_type]}.from_str", {"loss": eq_type, "eq_params": "{}"}, go_noeq,
+                construct="from_str without equation parameters")
+
         # R4 default
         def go_default(eq_type=eq_type, terms=terms):
             conf = tuple(CONF[t] for t in terms)
